@@ -2,11 +2,12 @@
 optimizePlan with join inversion, the type-join nodes, scan nodes and the fetcher stack) over symbolic documents in the key-value model."""
 
 KF = "C09-order-through-relation-drops-parentless"
+KF2 = "C09-filtered-count-next-to-relation-filter"
 REDIR = {"github.com/sourcenetwork/defradb/internal/lens.NewFetcher": "qNoLens"}
 QN = {0: "parent-lists-children", 1: "child-shows-parent", 2: "parents-by-child-filter", 3: "parents-by-two-child-conditions",
       4: "parents-by-child-filter-with-children", 5: "children-by-parent-filter", 6: "parents-by-child-filter-with-ordered-children",
       7: "parents-by-child-filter-with-count", 8: "parents-by-child-filter-ordered", 9: "parent-lists-ordered-children",
-      10: "children-by-own-and-parent-filter", 11: "children-ordered-by-parent-field"}
+      10: "children-by-own-and-parent-filter", 11: "children-ordered-by-parent-field", 12: "parents-by-child-filter-with-filtered-count"}
 
 
 def jobs(tier):
@@ -24,8 +25,14 @@ def jobs(tier):
                            "conf": {"q": q, "idx": idx, "devices": nd, "class": 1}, "_obligation": "O1", "_covers": ["ran"], "unwind": 60,
                            "_expect": "known:" + KF, "_known_labels": ["children-with-a-matching-parent-appear-once-each"]})
                 continue
-            js.append({"id": f"O1.one-to-many.{QN[q]}.idx{idx}.devices{nd}", "func": "VerifH_C09_OneToMany", "conf": {"q": q, "idx": idx, "devices": nd, "class": 2},
-                       "_obligation": "O1", "_covers": ["ran"], "unwind": 60})
+            j = {"id": f"O1.one-to-many.{QN[q]}.idx{idx}.devices{nd}", "func": "VerifH_C09_OneToMany", "conf": {"q": q, "idx": idx, "devices": nd, "class": 2},
+                 "_obligation": "O1", "_covers": ["ran"], "unwind": 60}
+            if q == 12 and idx & 1:
+                # a filtered _count next to a relation filter on an indexed child field: the count is too small (known finding, D40);
+                # every other assertion of the job stays in force
+                j["_expect"] = "known:" + KF2
+                j["_known_labels"] = ["count-through-the-relation-is-the-number-of-related-documents"]
+            js.append(j)
     ON = {0: "secondary-shows-related", 1: "primary-shows-related", 2: "parents-by-related-filter", 3: "primary-by-related-filter", 4: "parents-by-related-filter-with-related"}
     for q in ON:
         for idx in (0, 1, 2, 3):
